@@ -1,2 +1,11 @@
-/- C20 — property theorems (to be added); model: -/
+/-
+C20 — bundled tools.  The logic of the tools is modelled in E57/Model/Tools.lean and compared with the
+real binaries by the tools suite.  Proved (E57/Proofs/SoftFloat.lean, namespace E57.SF), for the
+soft-float model of binary64/binary32 that suite `sfloat` ties to the hardware:
+
+ * `colour_roundTrip : c < 256 → colourRoundTrip c = c` — every 8-bit colour survives
+   normalise(0..255) → `as f32` → `* 255f32` → `as u8`; the whole table is decided in the kernel;
+ * `colour_normalised`, `toU8B_spec` (the saturating cast), `val64_ofInt_small`.
+-/
 import E57.Model.Tools
+import E57.Proofs.SoftFloat
